@@ -51,6 +51,10 @@ ASSUMPTIONS = [
     "conditional over the function-value range (part condf): 'the conditional distributions have the documented parameters' is decided through log_prob of the RETURNED distribution and its gradient w.r.t. f "
     "for |f| = 1e-6 .. 1e3 against the documented density in mpmath at 1e-9 (1 + |reference|) (measured on the unchanged tree: <= 4e-14 where it passes): a distribution whose parameters agree to 1e-16 but whose "
     "log-density is floored (torch clamps probability parameters to [eps, 1 - eps]) does not have the documented density; fixed parameters noise = 1/4, deg_free = 4, Beta scale = 5",
+    "rule size (part bigrules): for 48 .. 128 nodes 'exactly' is decided on the monomials x^k, k = 2n-2, 2n-1, n, n+1, against the exact moment in Python integers at 32 (k + n) 2^-53 relative to the sum of the "
+    "absolute terms of the rule (the moment itself for even k; sqrt(M_(k-1) M_(k+1)) for odd k; measured on the unchanged tree <= 1.1 (k + n) 2^-53); cells whose integrand exceeds the float64 range at a node are counted, not decided.  "
+    "A rule built under default dtype float32 stores its weights in float32: weights below 2^-126 underflow, which no cast restores, so those cells are held to 32 (k + n) 2^-24 + 2^-126 sum_i |x_i|^k / sqrt(pi) over the nodes i whose stored weight is below 2^-126 "
+    "(for more than 60 nodes the top degrees are then 'float32-underflow-limited': counted, decided only for structure: num_locs nodes, weights >= 0 summing to sqrt(pi))",
     "a degree-2n monomial must miss the integral by s^2n n!; a different deficit is reported as MODEL-DRIFT (a rule exact to a higher degree "
     "would still satisfy the property)",
 ]
@@ -1407,6 +1411,7 @@ def aggregate(ck, results):
                                      "LaplaceLikelihood docstring: 'sigma - the noise'; forward(): scale = noise.sqrt()"]
     if ln["val_tail"] == 0.0 or ln["val_body"] == 0.0 and ln["grad_body"] == 0.0:
         ck.vacuous("log_normal_cdf grid did not exercise both sides of z = -1")
+    aggregate_big(ck, results)
 
 
 def replay_aggregate(case):
@@ -1634,3 +1639,182 @@ def run_condf(torch, gpytorch, it):
 
 
 RUNNERS["condf"] = run_condf
+
+
+# =====================================================================================================================================
+# (h) the rule size (Quadrature.tla part "bigrules"): rules with 48 .. 128 nodes on the monomials of degree 2n-2, 2n-1, n, n+1 against the exact
+#     moment in Python integers.  One evaluation of the real rule per (rule, degree); no Fraction arithmetic per node (the exact-rational replay of
+#     run_poly is not used for these sizes).
+# =====================================================================================================================================
+EPS64 = 2.0 ** -53
+EPS32 = 2.0 ** -24
+TINY32 = 2.0 ** -126      # smallest normal float32: a weight below it carries no relative accuracy once stored in float32 (it may be rounded to a denormal or to 0)
+BIG_C = 32                # tolerance = BIG_C x (degree + num_locs) x unit roundoff x sum of the absolute terms; measured on the unchanged tree: <= 1.1 x (degree + num_locs) x 2^-53
+BIG_DEG = ("top-even", "top-odd", "mid", "mid+1")
+
+
+def float32_kept(locs):
+    """how many nodes of numpy's rule have a weight that is a positive float32 number (the modelled rule of the vacuity guard keeps only those)"""
+    import numpy as np
+    return {n: int((np.polynomial.hermite.hermgauss(n)[1].astype(np.float32) > 0).sum()) for n in locs}
+
+
+def big_items(states):
+    """one item = (num_locs, how, dtype) with every (mean, sd, degree class) cell of the lattice"""
+    groups = {}
+    for st in states:
+        c, o = st["c"], st["out"]
+        key = (int(c["n"]), str(c["how"]), str(c["dtype"]))
+        if str(o["demand"]) != "exact" or int(o["nodes"]) != key[0]:
+            raise core.Machinery("C13 bigrules: unexpected demand in %r" % (o,))
+        groups.setdefault(key, []).append(dict(m=[int(x) for x in o["m"]], s=[int(x) for x in o["s"]], ratio=[int(x) for x in c["ratio"]], deg=str(c["deg"]), degree=int(o["degree"]),
+                                               terms=str(o["terms"])))
+    out = []
+    for k, (key, cells) in enumerate(sorted(groups.items())):
+        cells.sort(key=lambda q: (q["degree"], q["m"], q["s"]))
+        out.append(dict(kind="big", n=key[0], how=key[1], dtype=key[2], cells=cells, dist=DISTS[k % 2]))
+    return out
+
+
+def log_frac(q):
+    return math.log(q.numerator) - math.log(q.denominator)
+
+
+def build_big(torch, gpytorch, n, how, dtype):
+    from gpytorch.utils.quadrature import GaussHermiteQuadrature1D
+    dt = torch.float64 if dtype == "float64" else torch.float32
+    with default_dtype(torch, dt):
+        if how == "ctor":
+            q = GaussHermiteQuadrature1D(n)
+        elif how == "setting":
+            with gpytorch.settings.num_gauss_hermite_locs(n):
+                q = GaussHermiteQuadrature1D()
+        elif how == "likelihood":
+            with gpytorch.settings.num_gauss_hermite_locs(n):
+                q = [gpytorch.likelihoods.LaplaceLikelihood, gpytorch.likelihoods.BernoulliLikelihood, gpytorch.likelihoods.StudentTLikelihood,
+                     gpytorch.likelihoods.BetaLikelihood][n % 4]().quadrature
+        else:
+            raise core.Machinery("unknown how " + how)
+    return q.double() if dtype == "float32" else q
+
+
+def run_big(torch, gpytorch, it):
+    D = torch.float64
+    n, how, dtype = it["n"], it["how"], it["dtype"]
+    eps = EPS64 if dtype == "float64" else EPS32
+    desc = "num_locs=%d given by %s, default dtype %s at construction" % (n, how, dtype)
+    base = dict(ok=True, nontrivial=True, case=it)
+    out = []
+    ok, q = core.guarded(lambda: build_big(torch, gpytorch, n, how, dtype))
+    if not ok:
+        return [dict(base, key=["big", n, how, dtype], ok=False, sig="C13/bigrules/%s/raises" % dtype, detail="%s: %s" % (desc, q))]
+    # ---- structure the property implies: exactly num_locs distinct nodes inside [-sqrt(2n+1), sqrt(2n+1)], positive weights that sum to sqrt(pi) ------------------
+    r = dict(base, key=["big", n, how, dtype, "structure"], sig="C13/bigrules/%s/num-locs" % dtype)
+    loc, w = q.locations.detach().reshape(-1), q.weights.detach().reshape(-1)
+    if loc.numel() != n or w.numel() != n or q.locations.dtype != D:
+        r.update(ok=False, detail="%s: the rule holds %d nodes and %d weights (%s): a rule with k nodes cannot be exact at degree 2k <= 2 num_locs - 1" % (desc, loc.numel(), w.numel(), q.locations.dtype))
+    out.append(r)
+    r = dict(base, key=["big", n, how, dtype, "weights"], sig="C13/bigrules/%s/weights" % dtype)
+    ws = float(w.sum())
+    srt = torch.sort(loc).values
+    gap = float((srt[1:] - srt[:-1]).min()) if loc.numel() > 1 else 1.0
+    wmin = float(w.min())
+    if not abs(ws - math.sqrt(math.pi)) <= 8 * (n + 8) * eps * math.sqrt(math.pi):
+        r.update(ok=False, detail="%s: the weights sum to %.17g, sqrt(pi) = %.17g" % (desc, ws, math.sqrt(math.pi)))
+    elif not (wmin > 0 if dtype == "float64" else wmin >= 0):
+        r.update(ok=False, detail="%s: smallest weight %.3g (a Gauss rule has positive weights)" % (desc, wmin))
+    elif not gap > 0 or not float(loc.abs().max()) <= math.sqrt(2 * n + 1):
+        r.update(ok=False, detail="%s: nodes are not %d distinct points of [-sqrt(2n+1), sqrt(2n+1)] (smallest gap %.3g, largest |node| %.6g)" % (desc, n, gap, float(loc.abs().max())))
+    out.append(r)
+    # ---- exactness on the monomials ------------------------------------------------------------------------------------------------------------------------
+    xb = math.sqrt(2 * (2 * n + 1))           # |sqrt(2) node| <= sqrt(2 (2n + 1))
+    moms = {}
+    worst, n_dec, n_range, n_under = 0.0, 0, 0, 0
+    by_deg = {}
+    for cell in it["cells"]:
+        by_deg.setdefault(cell["degree"], []).append(cell)
+    for k, cells in sorted(by_deg.items()):
+        use = []
+        for cell in cells:
+            m, s = F(*cell["m"]), F(*cell["s"])
+            if (m, s) not in moms:
+                moms[(m, s)] = ref.moments_upto(m, s, 2 * n + 1)
+            mm = moms[(m, s)]
+            scale = mm[k] if k % 2 == 0 else None       # even degree: every term of the rule's sum is positive, they add up to the moment itself
+            lsc = log_frac(mm[k]) if k % 2 == 0 else 0.5 * (log_frac(mm[k - 1]) + log_frac(mm[k + 1]))      # odd: sum_i w_i |x_i|^k <= sqrt(M_(k-1) M_(k+1)) (Cauchy-Schwarz; the rule's degree-2n value is below M_2n)
+            rr = dict(base, key=["big", n, how, dtype, cell["m"], cell["s"], cell["deg"]], sig="C13/bigrules/%s/deg<2n/%s" % (dtype, cell["deg"]))
+            if k * math.log(abs(float(m)) + float(s) * xb) > 700 or not -600 < lsc < 700:
+                n_range += 1
+                rr.update(nontrivial=False, big=dict(cls="out-of-float64-range", n=n, deg=cell["deg"], dtype=dtype))
+                out.append(rr)
+                continue
+            use.append((cell, m, s, mm, rr))
+        if not use:
+            continue
+        mean = torch.tensor([float(m) for _, m, _, _, _ in use], dtype=D)
+        var = torch.tensor([float(s * s) for _, _, s, _, _ in use], dtype=D)
+        ok, got = core.guarded(lambda: q(lambda x: x ** k, make_dist(torch, gpytorch, it["dist"], mean, var)))
+        if not ok or tuple(got.shape) != (len(use),):
+            out.append(dict(base, key=["big", n, how, dtype, k, "raises"], ok=False, sig="C13/bigrules/%s/raises" % dtype, detail="%s degree %d: %s" % (desc, k, got if not ok else "result shape %s" % list(got.shape))))
+            continue
+        got = got.detach().tolist()
+        for (cell, m, s, mm, rr), g in zip(use, got):
+            den = mm[k] ** 2 if k % 2 == 0 else mm[k - 1] * mm[k + 1]
+            if not math.isfinite(g):
+                rr.update(ok=False, detail="%s: x^%d against N(%s, %s^2): the rule gives %r" % (desc, k, m, s, g))
+                out.append(rr)
+                continue
+            err = math.sqrt(float((Fraction(g) - mm[k]) ** 2 / den))
+            tol = BIG_C * (k + n) * eps
+            cls = "decided"
+            if dtype == "float32":
+                # what float32 storage of the weights can lose: TINY32 per node whose stored weight is below the normal range, times the integrand at the rule's own nodes (count and range checked above), 1 / sqrt(pi) normalisation
+                x = (loc * math.sqrt(2.0) * float(s) + float(m)).abs()
+                lost = w.double() < TINY32               # a stored weight in the normal range is accurate to float32 rounding (covered by the relative term)
+                under = 0.0
+                if bool(lost.any()):
+                    lu = math.log(TINY32) + float(torch.logsumexp(k * torch.log(x[lost].clamp_min(1e-300)), 0)) - 0.5 * math.log(math.pi) - 0.5 * log_frac(den)
+                    under = math.exp(min(lu, 50.0))
+                tol += under
+                if under > 1e-3:
+                    cls = "float32-underflow-limited"
+                    n_under += 1
+            rr["big"] = dict(cls=cls, n=n, deg=cell["deg"], dtype=dtype, centred=abs(F(*cell["ratio"])) <= Fraction(1, 2), err=err / ((k + n) * eps))
+            if cls == "decided":
+                n_dec += 1
+                worst = max(worst, err / ((k + n) * eps))
+            else:
+                rr["nontrivial"] = False
+            if not err <= tol:
+                rr.update(ok=False, detail="%s: x^%d against N(%s, %s^2): the rule gives %.17g, exact moment %.17g (error %.3e of the sum of the absolute terms, tolerance %.3e = %d (degree + num_locs) x unit roundoff%s); the rule holds %d nodes" % (
+                    desc, k, m, s, g, float(mm[k]) if abs(log_frac(abs(mm[k]))) < 700 else float("nan"), err, tol, BIG_C, " + float32 underflow of the weights" if dtype == "float32" else "", loc.numel()) if mm[k] != 0 else
+                    "%s: x^%d against N(0, %s^2): the rule gives %.17g, exact moment 0 (error %.3e of sqrt(M_(k-1) M_(k+1)), tolerance %.3e); the rule holds %d nodes" % (desc, k, s, g, err, tol, loc.numel()))
+            out.append(rr)
+    out[0]["meas"] = dict(kind="big", n=n, how=how, dtype=dtype, worst=worst, decided=n_dec, out_of_range=n_range, underflow_limited=n_under)
+    if dtype == "float64" and how == "setting":
+        c0 = [r for r in out if r.get("big", {}).get("cls") == "decided" and r["key"][-1] == "top-odd"]
+        if c0:
+            out[0]["sample"] = dict(case=desc + ", degree %d" % (2 * n - 1), cell=str(c0[0]["key"][4:6]), error_in_units_of_degree_plus_n_roundoffs=c0[0]["big"]["err"])
+    return out
+
+
+RUNNERS["big"] = run_big
+
+
+def aggregate_big(ck, results):
+    meas = [r["meas"] for r in results if r.get("meas") and r["meas"]["kind"] == "big"]
+    cells = [r["big"] for r in results if r.get("big")]
+    dec = {}
+    for b in cells:
+        if b["cls"] == "decided" and b["centred"]:
+            dec[(b["n"], b["dtype"], b["deg"])] = dec.get((b["n"], b["dtype"], b["deg"]), 0) + 1
+    ns = sorted({b["n"] for b in cells})
+    missing = [(n, d) for n in ns for d in BIG_DEG if not dec.get((n, "float64", d))]
+    if (missing or not meas) and not any(not r.get("ok", True) for r in results):
+        ck.vacuous("bigrules: no centred float64 cell inside the float64 range decides %s" % (missing or "anything"))
+    ck.section("bigrules", rules=len(meas), cells=len(cells), cells_decided=sum(1 for b in cells if b["cls"] == "decided"),
+               cells_integrand_out_of_float64_range=sum(1 for b in cells if b["cls"] == "out-of-float64-range"),
+               cells_float32_underflow_limited=sum(1 for b in cells if b["cls"] == "float32-underflow-limited"))
+    ck.extra["bigrules_worst_error_in_units_of_(degree+num_locs)_roundoffs"] = {
+        "%d/%s" % (n, dt): float("%.3g" % max([m["worst"] for m in meas if m["n"] == n and m["dtype"] == dt] or [0.0])) for n in ns for dt in ("float64", "float32")}
+    ck.extra["bigrules_tolerance"] = "%d x (degree + num_locs) x unit roundoff of the dtype, relative to the sum of the absolute terms; float32: + 2^-126 x sum_i |x_i|^k / sqrt(pi) (a float32 weight below the smallest normal number carries no accuracy)" % BIG_C
